@@ -10,6 +10,9 @@ FUNCTIONS = ["miros.activeobject.ActiveFabricSource.start/initiate_thread", "mir
              "miros.activeobject.ActiveFabricSource.stop/stop_thread", "miros.activeobject.ActiveFabricSource.clear/subscribe/publish",
              "miros.activeobject.ActiveFabricSource.thread_runner_fifo/thread_runner_lifo", "miros.activeobject.ActiveObject.run_event/start_at"]
 ASSUMPTIONS = [
+  "E2 part: caller threads run the real ActiveFabricSource.start (translated from /repo's source on this run) concurrently; Thread(...) takes a thread from a "
+  "pool of modelled threads whose body is the delivery loop waiting on the fabric's queue of its kind; fifo_thread / lifo_thread are shared attributes (one step "
+  "per load and per store); locks of the fabric object (found by introspection) are RLock models",
   "threading.Thread replaced by a recording stand-in: a started delivery thread counts as alive until its body has returned; join() runs the real "
   "body from inside its loop (the thread is blocked in queue.get) and would never return if the body blocked again",
   "delivery is pumped after publish with a counting run flag, using the queue and registry objects the thread was started with",
@@ -187,3 +190,50 @@ def set_tier(tier):
 
 def jobs(tier):
   return jobs_all(globals(), tier)
+
+
+# ---- E2 part: concurrent start() calls (two active objects started from different threads) -----------------------------------------
+def e2_scenarios(tier):
+  two = dict(scripts=(("start",), ("start",)), pool=3)
+  alive = dict(scripts=(("start", "is_alive"), ("start",)), pool=3)
+  three = dict(scripts=(("start",), ("start",), ("start",)), pool=4)
+  if tier == "quick":
+    return [(two, 30)]
+  return [(two, 30), (alive, 40), (three, 40)]
+
+
+def e2_specs(tier):
+  out = []
+  to = 900 if tier == "quick" else 3600
+  for (kw, K) in e2_scenarios(tier):
+    out.append(dict(scenario="fabric_start", kwargs=kw, kind="reach", K=K, pred="callers_done", timeout=to))
+    out.append(dict(scenario="fabric_start", kwargs=kw, kind="safety", K=K, pred="fabric_start_bad", timeout=to, replay="fabric_start_replay"))
+    out.append(dict(scenario="fabric_start", kwargs=kw, kind="deadlock", K=K, pred="callers_open", timeout=to, replay="fabric_start_replay"))
+    out.append(dict(scenario="fabric_start", kwargs=kw, kind="adequacy", K=K, timeout=to))
+  return out
+
+
+def e2_signature(spec, r):
+  real = r["replay"]["real"]
+  if spec["kind"] == "deadlock":
+    n = len(spec["kwargs"]["scripts"])
+    return ("start-blocked-for-ever", "callers finished %s of %d; schedule: %s" % (real["callers_finished"], n, r["trace"]), len(real["callers_finished"]) < n)
+  if real["errors"]:
+    return ("start-raised:" + "+".join(sorted(set(v.split(":")[0] for v in real["errors"].values()))), "%s; schedule: %s" % (real["errors"], r["trace"]), True)
+  kinds = [k for (_i, k) in real["threads_running"]]
+  dup = len(set(kinds)) < len(kinds)
+  held = set(v for v in real["handles_held"].values() if v is not None)
+  lost = [i for (i, _k) in real["threads_running"] if i not in held]
+  return ("two-delivery-threads:concurrent-start" if dup else "delivery-thread-handle-lost:concurrent-start",
+          "concurrent start() calls on the real fabric: threads running %s, handles held %s; schedule: %s" % (real["threads_running"], real["handles_held"], r["trace"]),
+          dup or bool(lost))
+
+
+def solver_part(tier, known):
+  from vf.e2 import propbase, harness
+  FUNCTIONS.extend(x for x in propbase.functions_of("fabric_start", e2_scenarios(tier)[0][0]) if x not in FUNCTIONS)
+  n = 6 if tier == "quick" else 20
+  out = propbase.run(e2_specs(tier), known, e2_signature, jobs=8,
+                     differential=lambda: harness.fabric_start_differential(dict(scripts=(("start",), ("start", "stop")), pool=3), n, seed=29))
+  out["coverage"]["e2_bounds"] = [{"kwargs": k, "K": K} for k, K in e2_scenarios(tier)]
+  return out
